@@ -337,7 +337,10 @@ func ZZ_C02_ConstantConditions(sv *zzsv.T) {
 // (which share one constant) - nested directly, through a function called
 // from the outer body, or one after the other: every loop still visits every
 // entry exactly once, in order.
-func ZZ_C02_SameIterable(sv *zzsv.T) {
+func ZZ_C02_SameIterable(sv *zzsv.T) { zzSameIterable(sv, "C02.same") }
+
+// (shared with C16: every entry of a container is visited exactly once)
+func zzSameIterable(sv *zzsv.T, site string) {
 	n := sv.Choice("len", 3) // 0..2 entries
 	s := zzASCII(sv, "chars", n)
 	kind := sv.Choice("container", 4) // string variable, string literal twice, array variable, range
@@ -393,7 +396,7 @@ func ZZ_C02_SameIterable(sv *zzsv.T) {
 	sv.Assume(err == nil)
 	out, rerr := e.Execute(nil)
 	zzDescribe(sv, "result", out, rerr)
-	sv.Assert("C02.same.noerror", rerr == nil && zzSame(sv, out, zInt(7)))
+	sv.Assert(site+".noerror", rerr == nil && zzSame(sv, out, zInt(7)))
 	var want []zv
 	if shape == 2 {
 		want = append(append(want, elems...), elems...)
@@ -403,10 +406,10 @@ func ZZ_C02_SameIterable(sv *zzsv.T) {
 			want = append(want, elems...)
 		}
 	}
-	sv.Assert("C02.same.visits", len(trace) == len(want))
+	sv.Assert(site+".visits", len(trace) == len(want))
 	if len(trace) == len(want) {
 		for i := range want {
-			sv.Assert("C02.same.entry", zzSame(sv, trace[i], want[i]))
+			sv.Assert(site+".entry", zzSame(sv, trace[i], want[i]))
 		}
 	}
 }
